@@ -88,7 +88,7 @@ func (h HTTPConv) Do(ctx context.Context, resp http.ResponseSetter, tbytes []byt
 
 	body := make([]byte, len(*buf))
 	copy(body, *buf)
-	resp.SetRawBody(body)
+	err = resp.SetRawBody(body)
 
 	conv.FreeBytes(buf) // explicit leak by on panic
 	return
@@ -125,6 +125,6 @@ func (h HTTPConv) DoInto(ctx context.Context, resp http.ResponseSetter, tbytes [
 	if err != nil {
 		return
 	}
-	resp.SetRawBody(*buf)
+	err = resp.SetRawBody(*buf)
 	return
 }
